@@ -78,6 +78,15 @@ pub fn sign(payload: &J, key: &str) -> String {
     jsonwebtoken::encode(&Header::new(alg), payload, &keys::issuer_enc(key)).expect("sign")
 }
 
+/// Sign a payload given as JSON TEXT (to control number spellings such as 9.0e9).
+pub fn sign_raw(payload_text: &str, key: &str) -> String {
+    let alg = Algorithm::from_str(keys::alg_of(key)).unwrap();
+    let header = crate::util::b64e(format!("{{\"typ\":\"JWT\",\"alg\":\"{}\"}}", keys::alg_of(key)).as_bytes());
+    let message = format!("{header}.{}", crate::util::b64e(payload_text.as_bytes()));
+    let sig = jsonwebtoken::crypto::sign(message.as_bytes(), &keys::issuer_enc(key), alg).expect("sign");
+    format!("{message}.{sig}")
+}
+
 pub fn sd_hash(jwt: &str, disclosures: &[String]) -> String {
     let mut s = String::from(jwt);
     s.push('~');
